@@ -108,7 +108,8 @@ KnownSigs == {Garbled, Framing} \cup {w.m.sig : w \in {x \in wire : x.m.t = "sh"
 AttackerHellos == {SH(p, n, t, g) : p \in KnownPubs \ {"A", "R"}, n \in KnownSalts, t \in KnownToks,
                                     g \in KnownSigs \cup {Sig("A", p2, n2, t2) : p2 \in KnownPubs \ {"A", "R"}, n2 \in KnownSalts, t2 \in KnownToks}}
 AttackerChallenges == {[t |-> "cr", key |-> k, token |-> t] : t \in KnownToks,
-                          k \in {K("a", p, n) : p \in KnownPubs \ {"A", "R", "a"}, n \in KnownSalts} \cup {[pair |-> {"garbage"}, salt |-> "x"]}}
+                          k \in {K("a", p, n) : p \in KnownPubs \ {"A", "R", "a"}, n \in KnownSalts} \cup {[pair |-> {"garbage"}, salt |-> "x"],
+                                [pair |-> {"plain"}, salt |-> "x"]}}        \* "plain": not sealed at all - the token (public: it travels in the clear hello) behind a valid CRC
 Attack ==
   /\ used < MaxAttacker /\ used' = used + 1
   /\ \/ \E w \in wire, from \in Addrs :            \* replay / redirect any recorded datagram to the server from any address
